@@ -7,7 +7,7 @@ self-contained and can be replayed or shrunk alone.
 
 usage: gencases.py --streams url,set,... --n <cases per stream> --seed N > ops.txt
 """
-import argparse, random, re, sys, itertools
+import os, argparse, random, re, sys, itertools
 
 # ----------------------------------------------------------------------------- vocabularies
 SCHEMES = ['http','https','ws','wss','ftp','file','non-spec','x','a+b-c.d','HTTP','hTtPs','FILE','htt','httpss','fil','blob','mailto','','1ab','h ttp','wS','FtP']
@@ -449,6 +449,62 @@ class Gen:
         self.emit('set 0 %s 8 %s' % (st, U(units(v, 8))))
         self.emit('set 0 %s 8 %s' % (('search', U(units('z', 8))) if k % 2 else ('hash', U(units('z', 8)))))
         return True
+    # ---- the web-platform-tests data for the URL Standard (doc/wpt/: urltestdata.json, setters_tests.json):
+    # the Standard's own conformance inputs; the expectations in the files are compared by tools/extra.py wpt
+    _wpt = {}
+    def wpt_data(self, name):
+        if name not in Gen._wpt:
+            import json as J
+            d = J.load(open(os.path.join(os.path.dirname(os.path.dirname(os.path.abspath(__file__))), 'doc', 'wpt', name)))
+            # plus the repository's own data files in the same format (test/data/)
+            repo = os.environ.get('VERIF_REPO', '/repo')
+            def own(f):
+                try: return J.load(open(os.path.join(repo, 'test', 'data', f)))
+                except Exception: return [] if name != 'setters_tests.json' else {}
+            if name == 'urltestdata.json': Gen._wpt[name] = [c for c in d + own('my-urltestdata.json') if isinstance(c, dict)]
+            else: Gen._wpt[name] = [(st, c) for dd in (d, own('my-setters_tests.json')) for st, cs in dd.items() if isinstance(cs, list) and st != 'comment' for c in cs]
+        return Gen._wpt[name]
+    def form_data(self):
+        """the repository's urlencoded-parser.json and urlsearchparams-sort.json (web-platform-tests data it ships)"""
+        if 'form' not in Gen._wpt:
+            import json as J
+            repo = os.environ.get('VERIF_REPO', '/repo')
+            out = []
+            for f, sort in (('urlencoded-parser.json', False), ('urlsearchparams-sort.json', True)):
+                try: out += [(sort, c) for c in J.load(open(os.path.join(repo, 'test', 'data', f))) if isinstance(c, dict)]
+                except Exception: pass
+            Gen._wpt['form'] = out
+        return Gen._wpt['form']
+    def s_wptform(self, k):
+        d = self.form_data()
+        if k >= len(d): return False
+        sort, c = d[k]
+        e = self.wpt_enc(k, c['input'])
+        self.emit('case')
+        self.emit('psp 0 ctor %d %s' % (e, U(units(c['input'], e))))
+        if sort: self.emit('psp 0 sort')
+        return True
+    def wpt_enc(self, k, *texts):
+        e = (8, 16, 32)[(k + self.seed) % 3]
+        if e == 8 and any(0xD800 <= ord(ch) <= 0xDFFF for t in texts for ch in t): e = 16   # lone surrogates have no UTF-8 form
+        return e
+    def s_wpt(self, k):
+        d = self.wpt_data('urltestdata.json')
+        if k >= len(d): return False
+        c = d[k]; base = c.get('base')
+        e = self.wpt_enc(k, c['input'], base or '')
+        self.emit('case')
+        self.emit('parse 0 %d %s %s' % (e, U(units(c['input'], e)), '-' if base is None else 't%d:%s' % (e, U(units(base, e)))))
+        return True
+    def s_wptset(self, k):
+        d = self.wpt_data('setters_tests.json')
+        if k >= len(d): return False
+        st, c = d[k]
+        e = self.wpt_enc(k, c['href'], c['new_value'])
+        self.emit('case')
+        self.emit('parse 0 %d %s -' % (e, U(units(c['href'], e))))
+        self.emit('set 0 %s %d %s' % (st, e, U(units(c['new_value'], e))))
+        return True
     def s_enc_exh(self, k):
         """C10: all byte strings of length <= 3 over a 20-byte alphabet covering every lead/trail class"""
         alpha = [0x41, 0x7F, 0x80, 0x8F, 0x90, 0x9F, 0xA0, 0xBF, 0xC1, 0xC2, 0xDF, 0xE0, 0xE1, 0xED, 0xEF, 0xF0, 0xF1, 0xF4, 0xF5, 0xFF]
@@ -648,6 +704,7 @@ EXH = {
     'hostascii': lambda g, k, a: g.s_hostascii(k), 'encexh': lambda g, k, a: g.s_enc_exh(k),
     'ipv4exh': lambda g, k, a: g.s_ipv4_exh(k, a or 4), 'ipv6exh': lambda g, k, a: g.s_ipv6_exh(k, a or 5),
     'pctexh': lambda g, k, a: g.s_pct_exh(k), 'member': lambda g, k, a: g.s_member(k), 'setexh': lambda g, k, a: g.s_set_exh(k, a),
+    'wpt': lambda g, k, a: g.s_wpt(k), 'wptset': lambda g, k, a: g.s_wptset(k), 'wptform': lambda g, k, a: g.s_wptform(k),
     'ipv6serexh': lambda g, k, a: (g.s_ipv6ser(k), k < 256 * 5 - 1)[1],
 }
 
